@@ -7,6 +7,7 @@ from dask.graph_manipulation import wait_on
 from scipy.sparse.linalg import svds as complex_svd  # type: ignore
 from sklearn.utils.extmath import randomized_svd
 
+from ..._verif import emit as _verif_emit
 from ...utils.sanity_checks import sanity_check_n_modes
 
 
@@ -156,6 +157,15 @@ class _SVD:
                     "Valid options are 'auto', 'full', and 'randomized'."
                 )
 
+        _verif_emit(
+            "svd_branch",
+            where="_SVD",
+            branch="exact"
+            if use_exact
+            else ("dask" if use_dask else ("svds" if use_complex else "randomized")),
+            n_modes_precompute=self.n_modes_precompute,
+            rank=rank,
+        )
         # Use exact SVD for small data sets
         if use_exact:
             U, s, VT = self._svd(X, np.linalg.svd, self.solver_kwargs)
